@@ -113,7 +113,8 @@ class MoreInfoFromHeaderMixin:
 
         try:
             date = parsedate_to_datetime(value)
-        except (TypeError, ValueError):
+        except (TypeError, ValueError, OverflowError):
+            # OverflowError: e.g. an absurd hour field ("1 Jan 24 99999999999999999999:00")
             return None
 
         if date.tzinfo is None:
